@@ -118,3 +118,25 @@ Theorem C01_passwd2_update_frame : forall c perm isSet now bs file',
   read_at 4 4 file' = le_bytes 4 new /\ read_at 8 4 file' = le_bytes 4 now.
 Proof. exact passwd2_frame. Qed.
 Print Assumptions C01_passwd2_update_frame.
+
+(* what the source hands to encoding/binary (call sites regenerated from the type-checked syntax each run):
+   raw BinaryRead/BinaryWrite and AppendRecord/SubstituteRecord see only the padding-free disk records; no
+   mapped structure (user-info, message, segment) is ever serialised; only the four wrappers forward an
+   interface value; nothing else (no int/uint/pointer/struct literal) is passed.
+   PARTIAL: the full statement would read `n = "FavBoard" \/ n = "FavLine"` for BinRead/BinWrite. It is false
+   today: the legacy v4 favourites reader passes *FavFolder (a struct holding a pointer, not a record type:
+   lookup "FavFolder" (env c) = None) to BinRead, which encoding/binary refuses — known finding
+   C01/binread-nonrecord:FavFolder. *)
+Theorem C01_only_records_serialised_partial : forall c,
+  (forall n, In n (bin_raw_structs c) -> In n strict_disk_records) /\
+  (forall n, In n (bin_padded_structs c) -> (n = "FavBoard" \/ n = "FavLine") /\ lookup n (env c) <> None \/ n = "FavFolder") /\
+  (forall n, In n (bin_raw_structs c ++ bin_padded_structs c) -> ~ In n ["UserInfoRaw"; "MsgQueueRaw"; "SHMRaw"; "shmGV2"]) /\
+  (forall f, In f (bin_passthrough c) -> In f ["AppendRecord"; "BinRead"; "BinWrite"; "SubstituteRecord"]) /\
+  bin_other c = [].
+Proof. exact only_records_serialised_partial. Qed.
+Print Assumptions C01_only_records_serialised_partial.
+
+(* FavFolder holds a pointer: it has no fixed serialised form, encoding/binary refuses it *)
+Theorem C01_favfolder_is_not_a_record : forall c, lookup "FavFolder" (env c) = None.
+Proof. exact favfolder_not_record. Qed.
+Print Assumptions C01_favfolder_is_not_a_record.
